@@ -101,6 +101,7 @@ type FuncVC struct {
 	freshRefs map[string]bool
 	implFacts []Term
 	lastLess  string
+	fieldInvs map[string][]*FieldInv
 }
 
 type axiomT struct {
